@@ -106,7 +106,7 @@ def encLoop (v : Variant) : List Byte → Nat → Nat → Bool → List Byte →
 
 /-- `mpt_encode_cobs` / `mpt_encode_cobs_zpe`; `src = none` is `base == NULL` (terminate).
     `cobs == NULL` (reset) is `EncState` default; message deletion (`base->iov_base == NULL`) is
-    not modelled. -/
+    `encodeCobsDel` below. -/
 def encodeCobs (v : Variant) (st : EncState) (win : List Byte) (src : Option (List Byte)) : CRes EncOut :=
   let code := st.scratch % 256
   let len := st.done
